@@ -42,9 +42,32 @@ def exclusive(fn, a, b):
     return False
 
 
-def sinks_into_output(fn, n):
+def sinks_into_output(fn, n, depth=0):
     """Does the value of node n syntactically flow (through Box::new / into / Some / a let) into a
     struct-literal field, constructor argument, push() or the function result?"""
+    r = _sinks(fn, n)
+    if r and r.startswith("local ") and depth < 3:
+        # `let x = <copy>; ... S { f: x }`: the copy ends up wherever the (single-assignment) local is used
+        par = fn.parent(n)
+        while par is not None and par.get("k") != "Block":
+            par = fn.parent(par)
+        lid = None
+        if par is not None:
+            for s_ in par["stmts"]:
+                if s_["k"] == "Let" and s_.get("init") is not None and any(x is n for x in hir.walk(s_["init"])):
+                    b = hir.pat_bindings(s_["pat"])
+                    if len(b) == 1:
+                        lid = b[0]["local"]
+        if lid is not None and not fn.assignments_to(lid):
+            for u in fn.nodes():
+                if u.get("k") == "Path" and (hir.local_of(u) or (None,))[0] == lid:
+                    ru = sinks_into_output(fn, u, depth + 1)
+                    if ru and ru.startswith(("field of", "pushed", "constructor")):
+                        return ru
+    return r
+
+
+def _sinks(fn, n):
     cur = n
     for _ in range(12):
         par = fn.parent(cur)
